@@ -11,6 +11,7 @@ validator (counterexamples below, marked NOT-A-THEOREM); the `_partial` versions
 hypothesis, and `peg_validator_exact` / `mn_validator_exact` show that nothing else is missing.
 -/
 import LdpcV.Lemmas.ValidatorLemmas
+import LdpcV.Lemmas.CountLemmas
 namespace LdpcV.C16V
 open LdpcV LdpcV.Constr LdpcV.Graph
 
@@ -97,5 +98,12 @@ example :
     peg 3 4 2 [0, 1, 2, 0, 1, 2, 0, 1] = some ⟨[[0, 1, 3], [0, 2, 3], [1, 2]], [[0, 1], [2, 0], [1, 2], [0, 1]]⟩ ∧
     pegAccepts 3 4 2 ⟨[[0, 1, 3], [0, 2, 3], [1, 2]], [[0, 1], [2, 0], [1, 2], [0, 1]]⟩ = true := by
   decide +kernel
+
+/-- an infeasible configuration (more ones requested than the rows can hold: `wr · nrows < wc · ncols`) never yields a
+matrix, whatever the selections, the fill policy, backtracking and girth retries — so a successful result for such a
+configuration is a violation by itself -/
+theorem mn_infeasible_never_succeeds (cfg : MnCfg) (hinf : cfg.wr * cfg.nrows < cfg.wc * cfg.ncols)
+    (sels : List (List Nat)) (H : SM) : mnRun cfg (mnInit cfg) sels ≠ some (.ok H) :=
+  mn_infeasible cfg hinf sels H
 
 end LdpcV.C16V
